@@ -288,6 +288,85 @@ example :
       [var "c"]) 0) [num 4] 0).1 = .ok (num 10) := by
   with_unfolding_all rfl
 
+/-! ## 5. equivalent spellings: fixed vs rest parameters, direct call vs `apply`, define sugar vs lambda -/
+
+/-- the rest of `apply_scheme_procedure` once the parameters are bound: definitions, then the body -/
+def runBody (k : Nat) (σ : Store) (ρ : Nat) (defs : List Def) (body : List Expr) : Res TailRes :=
+  match Eval.evalDefs k σ ρ defs with
+  | (.error er, σ₁) => (.error er, σ₁)
+  | (.ok (), σ₁) => evalBody k σ₁ ρ body
+
+/-- Parameter binding, for an argument count that passes the arity test: in the new frame the fixed
+parameters are bound pairwise, in order, to the first arguments (`bindAll`), and a rest parameter is
+bound to the LIST (`Value.ofList`) of the remaining arguments. -/
+theorem rest_binding {k σ fixed rest defs body cenv args}
+    (ha : arityOk fixed.length rest.isSome args.length = true) :
+    applyScheme (k+1) σ (.mk ⟨fixed, rest⟩ defs body) cenv args =
+      runBody k
+        (match rest with
+         | some r => (bindAll (σ.newFrame (some cenv)).2 σ.frames.size fixed args).define σ.frames.size r
+                        (Value.ofList (args.drop fixed.length))
+         | none => bindAll (σ.newFrame (some cenv)).2 σ.frames.size fixed args)
+        σ.frames.size defs body := by
+  have hlen : fixed.length ≤ args.length := by
+    cases rest with
+    | none => have := (arityOk_fixed _ _).mp ha; omega
+    | some r => exact (arityOk_variadic _ _).mp ha
+  rw [applyScheme_succ]
+  simp only [Lambda.formals, Lambda.defs, Lambda.body, Store.newFrame, bindFixed_eq_bindAll _ _ _ _ hlen, runBody]
+  cases rest <;> rfl
+
+/-- `n` fixed parameters and a rest parameter, called with exactly `n` arguments, behave as the `n`
+fixed parameters alone, except that the rest name is additionally bound to the empty list. -/
+theorem rest_empty_as_fixed {k σ fixed r defs body cenv args} (hn : args.length = fixed.length) :
+    applyScheme (k+1) σ (.mk ⟨fixed, some r⟩ defs body) cenv args =
+      runBody k ((bindAll (σ.newFrame (some cenv)).2 σ.frames.size fixed args).define σ.frames.size r .nil)
+        σ.frames.size defs body ∧
+    applyScheme (k+1) σ (.mk ⟨fixed, none⟩ defs body) cenv args =
+      runBody k (bindAll (σ.newFrame (some cenv)).2 σ.frames.size fixed args) σ.frames.size defs body := by
+  constructor
+  · rw [rest_binding (by simp [arityOk, hn])]
+    simp [← hn, Value.ofList]
+  · rw [rest_binding (by simp [arityOk, hn])]
+
+/-- `((lambda (a . r) r) 1 2 3)` binds `r` to the list `(2 3)`; with one argument to `()` -/
+example :
+    (applyLoop 10 σ₀ (.closure (.mk ⟨["a"], some "r"⟩ [] [var "r"]) 0) [num 1, num 2, num 3] 0).1
+      = .ok (Value.ofList [num 2, num 3]) ∧
+    (applyLoop 10 σ₀ (.closure (.mk ⟨["a"], some "r"⟩ [] [var "r"]) 0) [num 1] 0).1 = .ok .nil := by
+  constructor <;> with_unfolding_all rfl
+
+/-- `(apply f a… lst)` IS the call of `f` on `a… ++ elements of lst`: the trampoline iteration that
+meets `apply` continues — in the same activation, one unit of fuel later — with `f` and the spread
+arguments.  (`f` a procedure, `lst` a pair or the empty list; otherwise `apply` is an error.) -/
+theorem apply_spread {k σ f as lst env} (hf : (procArity f).isSome)
+    (hl : lst = .nil ∨ ∃ a d, lst = .pair a d) :
+    applyLoop (k+1) σ (.builtin .apply) (f :: (as ++ [lst])) env = applyLoop k σ f (as ++ lst.elems) env := by
+  rw [applyLoop]
+  simp [procArity, Builtin.arity, arityOk, spreadApply_snoc hf hl]
+
+/-- … fuel-free, as an equivalence of outcomes, and for a proper list of arguments. -/
+theorem apply_spread_iff {σ f as vs env r σ'} (hf : (procArity f).isSome) :
+    Applies σ (.builtin .apply) (f :: (as ++ [Value.ofList vs])) env r σ' ↔ Applies σ f (as ++ vs) env r σ' := by
+  have hl : Value.ofList vs = .nil ∨ ∃ a d, Value.ofList vs = .pair a d := by
+    cases vs with
+    | nil => exact .inl rfl
+    | cons v vs => exact .inr ⟨_, _, rfl⟩
+  constructor
+  · intro h
+    obtain ⟨hr, N, hN⟩ := h.out
+    have := hN (N+1) (by omega)
+    rw [apply_spread hf hl, elems_ofList] at this
+    exact Applies.intro this hr
+  · intro h
+    refine Applies.apply (by simp) ?_ h
+    rw [spreadApply_snoc hf hl, elems_ofList]
+
+/-- `(apply + 1 '(2 3))` and `(+ 1 2 3)` -/
+example : (applyLoop 10 σ₀ (.builtin .apply) [.builtin .add, num 1, Value.ofList [num 2, num 3]] 0).1 = .ok (num 6) ∧
+    (applyLoop 10 σ₀ (.builtin .add) [num 1, num 2, num 3] 0).1 = .ok (num 6) := by
+  constructor <;> with_unfolding_all rfl
+
 /-! ## 6. MAIN: the model refines the reference semantics
 
 `Ref.eval` (`RuschmSpec/Ref.lean`) is the direct-style evaluator written from the R7RS rules: no
